@@ -45,6 +45,8 @@ def gen(seed, tier):
         pl["options"].pop("hibernation", None)
         for st in pl["stacks"]:
             st["layers"] = [x for x in st["layers"] if x["kind"] not in ("precision", "cutoff")]
+    if pl.get("entry") == "tree" and seed % 4 == 1:
+        pl["rerun_after_return"] = True
     g = pl.get("gsc")
     if g and g["kind"] == "fitness_eval_limit" and seed % 2 == 0:
         import random
